@@ -91,4 +91,34 @@ theorem dominates_trans' (x y z : List Int) (hxy : x.length = y.length) (hyz : y
   · have := a2 i hiy (by omega)
     omega
 
+/-! surplus components (vectors of unequal length) are ignored by the zipped walks -/
+
+theorem anyGreater_append (x y s : List Int) (hl : x.length = y.length) :
+    anyGreater x (y ++ s) = anyGreater x y ∧ anyGreater (x ++ s) y = anyGreater x y := by
+  induction x generalizing y with
+  | nil =>
+    cases y with
+    | nil => cases s <;> simp [anyGreater]
+    | cons b t => simp at hl
+  | cons a t ih =>
+    cases y with
+    | nil => simp at hl
+    | cons b u =>
+      have h := ih u (by simpa using hl)
+      simp only [List.cons_append, anyGreater, h.1, h.2, and_self]
+
+theorem anyLess_append (x y s : List Int) (hl : x.length = y.length) :
+    anyLess x (y ++ s) = anyLess x y ∧ anyLess (x ++ s) y = anyLess x y := by
+  induction x generalizing y with
+  | nil =>
+    cases y with
+    | nil => cases s <;> simp [anyLess]
+    | cons b t => simp at hl
+  | cons a t ih =>
+    cases y with
+    | nil => simp at hl
+    | cons b u =>
+      have h := ih u (by simpa using hl)
+      simp only [List.cons_append, anyLess, h.1, h.2, and_self]
+
 end Crem.Dominance
